@@ -122,10 +122,65 @@ func locate(fset *token.FileSet, fd *ast.FuncDecl, loc string) (ast.Expr, error)
 // toCoq translates the supported integer-expression fragment to a Z expression.
 // Division is Go's truncating division (Z.quot), remainder is Z.rem.
 func toCoq(fset *token.FileSet, e ast.Expr, subst map[string]string) (string, error) {
+	return toCoqL(fset, e, subst, nil, 0)
+}
+
+// localDefs collects, for a function body, the identifiers that are assigned exactly once by a
+// simple `x := expr` / `x = expr`; such locals are inlined by the translator (so `f := (n-1)/3;
+// m := 2*f+1` is read as one expression).
+func localDefs(body *ast.BlockStmt) map[string]ast.Expr {
+	count := map[string]int{}
+	defs := map[string]ast.Expr{}
+	ast.Inspect(body, func(n ast.Node) bool {
+		switch as := n.(type) {
+		case *ast.AssignStmt:
+			for i, l := range as.Lhs {
+				if id, ok := l.(*ast.Ident); ok {
+					count[id.Name]++
+					if len(as.Lhs) == len(as.Rhs) && (as.Tok == token.DEFINE || as.Tok == token.ASSIGN) {
+						defs[id.Name] = as.Rhs[i]
+					} else {
+						count[id.Name] += 100
+					}
+				}
+			}
+		case *ast.IncDecStmt:
+			if id, ok := as.X.(*ast.Ident); ok {
+				count[id.Name] += 100
+			}
+		case *ast.RangeStmt:
+			for _, l := range []ast.Expr{as.Key, as.Value} {
+				if id, ok := l.(*ast.Ident); ok {
+					count[id.Name] += 100
+				}
+			}
+		}
+		return true
+	})
+	out := map[string]ast.Expr{}
+	for k, e := range defs {
+		if count[k] == 1 {
+			out[k] = e
+		}
+	}
+	return out
+}
+
+func toCoqL(fset *token.FileSet, e ast.Expr, subst map[string]string, locals map[string]ast.Expr, depth int) (string, error) {
 	if v, ok := subst[printNode(fset, e)]; ok {
 		return v, nil
 	}
+	if depth > 12 {
+		return "", fmt.Errorf("local definitions nested too deeply at %q", printNode(fset, e))
+	}
+	toCoq := func(fset *token.FileSet, e ast.Expr, subst map[string]string) (string, error) {
+		return toCoqL(fset, e, subst, locals, depth+1)
+	}
 	switch x := e.(type) {
+	case *ast.Ident:
+		if d, ok := locals[x.Name]; ok {
+			return toCoq(fset, d, subst)
+		}
 	case *ast.ParenExpr:
 		return toCoq(fset, x.X, subst)
 	case *ast.BasicLit:
@@ -201,7 +256,7 @@ func TranslateSite(repo string, s Site) SiteResult {
 		return res
 	}
 	res.GoExpr = printNode(fset, e)
-	c, err := toCoq(fset, e, s.Subst)
+	c, err := toCoqL(fset, e, s.Subst, localDefs(fd.Body), 0)
 	if err != nil {
 		res.Err = err.Error()
 		return res
